@@ -127,6 +127,19 @@ fn run(sh: &mut Shard) {
             }
         }
     }
+    // integers that coincide with a function's packed entry offset and slot count
+    slices::descriptor_literal_programs(if tier == crate::shard::Tier::Quick { 160 } else { 2_000 }, &mut |prog| {
+        if !sh.mine() {
+            return;
+        }
+        sh.begin(&|| printer::program(&prog));
+        sh.count("slice:descriptor-literals");
+        if let Some(r) = differential(sh, "semantics", &prog, opts()) {
+            if !matches!(r.model.end, End::Unspec(_) | End::Diverge) {
+                sh.nontrivial(&printer::program(&prog));
+            }
+        }
+    });
     // scope events x kinds of use (plain, fused with a literal, compound, assignment, argument, index)
     slices::scope_event_programs(if tier == crate::shard::Tier::Quick { 2 } else { 3 }, &mut |prog| {
         if !sh.mine() {
